@@ -37,6 +37,10 @@ THEOREMS = [
     "SleapVerif.C12.batchsize_irrelevant",
     "SleapVerif.C12.batchsize_irrelevant_single",
     "SleapVerif.C12.topk_keeps_highest",
+    "SleapVerif.C12.bottomup_per_frame",
+    "SleapVerif.C12.bottomup_perm_equivariant",
+    "SleapVerif.C12.bottomup_batchsize_irrelevant",
+    "SleapVerif.C12.keepTop_keeps_highest",
 ]
 TOL = 1e-6      # same input ⇒ same float32 arithmetic; coordinates/values compared at 1e-6
 VAL_TIE = 1e-6
@@ -171,7 +175,7 @@ def check_topdown(chk, case):
              tags=["topdown", f"B={B}", f"mi={mi}", f"refine={case['refine']}",
                    "has_empty_frame" if 0 in n_an else "no_empty_frame",
                    "topk_active" if (mi is not None and any(n > mi for n in n_an)) else "topk_inactive",
-                   f"videos={len(vids)}"])
+                   f"videos={len(vids)}"] + ([f"bias={case['bias']}"] if case.get("bias") else []))
     ok = len(ig) == len(mg) and all(
         len(a) == len(b) and all(x[:2] == y[:2] and x[3] == y[3] and abs(x[2] - y[2]) <= TOL and abs(x[4] - y[4]) <= TOL
                                  for x, y in zip(a, b)) for a, b in zip(ig, mg))
@@ -234,7 +238,8 @@ def check_single(chk, case):
     (m_chunks, m_chunks_v) = (yield [f"chunks {B} {len(frames)}", f"chunks {B} {len(vids[0])}"])
     chk.case(("single", json.dumps(small, sort_keys=True)),
              {"case": "single", "B": B, "order": order, "sizes": sizes_b, "model": m_chunks},
-             tags=["single", f"B={B}", f"refine={case['refine']}", f"videos={len(vids)}"])
+             tags=["single", f"B={B}", f"refine={case['refine']}", f"videos={len(vids)}"]
+             + ([f"bias={case['bias']}"] if case.get("bias") else []))
     if "ok " + " ".join(map(str, sizes_b)) != m_chunks.strip() and not (not sizes_b and m_chunks.strip() == "ok"):
         chk.disagree("_predict_generator rows per output dict == Decode.chunks", small, sizes_b, m_chunks)
     if "ok " + " ".join(map(str, sizes_v)) != m_chunks_v.strip():
@@ -305,6 +310,75 @@ def gen_single(rng, i):
     return add_order(rng, case)
 
 
+def natural_order(case, B=None):
+    order = [[vi, k] for vi, v in enumerate(case["videos"]) for k in range(len(v))]
+    case["order"] = order
+    case["perm"] = order[::-1] if len(order) > 1 else order[:]
+    case["batch"] = B if B is not None else max(2, min(5, len(order)))
+    return case
+
+
+def bias_empty_first(rng, i):
+    """an EMPTY frame BEFORE a non-empty one in the same batch (a `continue` that desynchronises the
+    zipped lists shows here)"""
+    for _ in range(50):
+        case = gen_topdown_case(rng, refine=("integral" if i % 2 else None), max_instances=[None, 2][i % 2],
+                                counts=(1, 2, 3))
+        case["videos"] = case["videos"][:1]
+        v = case["videos"][0]
+        while len(v) < 3:
+            v.append(json.loads(json.dumps(v[-1])))
+        if all(f["animals"] for f in v[1:]):
+            break
+    v[0]["animals"] = []
+    if len(v) > 3:
+        v[2]["animals"] = []
+    case["bias"] = "empty_frame_first_in_batch"
+    return natural_order(case, B=rng.choice([2, 3, len(v)]))
+
+
+def bias_topk_after_detections(rng, i):
+    """`max_instances` with a frame EXCEEDING it placed AFTER a frame with detections in the same
+    batch (top-k gathered from the batch-wide tensor instead of the frame's rows shows here)"""
+    mi = 1 + i % 2
+    for _ in range(80):
+        case = gen_topdown_case(rng, refine=("integral" if (i // 2) % 2 else None), max_instances=mi,
+                                counts=(2, 3, 3, 4))
+        case["videos"] = case["videos"][:1]
+        v = case["videos"][0]
+        while len(v) < 2:
+            v.append(json.loads(json.dumps(v[-1])))
+        if len(v[0]["animals"]) >= 1 and any(len(f["animals"]) > mi for f in v[1:]):
+            break
+    case["bias"] = "topk_frame_after_frame_with_detections"
+    return natural_order(case, B=len(v))
+
+
+def bias_nan_batchmate(rng, i):
+    """integral refinement with a batch-mate that has a below-threshold (invisible) node"""
+    for _ in range(100):
+        case = gen_single_case(rng, refine="integral")
+        case["videos"] = case["videos"][:1]
+        if any(f["animals"] for f in case["videos"][0]):
+            break
+    v = case["videos"][0]
+    v[:] = [f for f in v if f["animals"]]
+    while len(v) < 3:
+        v.append(json.loads(json.dumps(v[-1])))
+    for k, f in enumerate(v):
+        if not f["animals"]:
+            f["animals"] = json.loads(json.dumps(next(g["animals"] for g in v if g["animals"])))
+    H, W = v[0]["H"], v[0]["W"]
+    for k, f in enumerate(v):
+        pts = f["animals"][0]["pts"]
+        for n in range(len(pts)):
+            if pts[n] is None:
+                pts[n] = [c02.lattice(rng, 4, W - 5), c02.lattice(rng, 4, H - 5)]
+    v[1]["animals"][0]["pts"][0] = None          # the batch-mate with an invisible node
+    case["bias"] = "integral_with_nan_batchmate"
+    return natural_order(case, B=len(v))
+
+
 def case_gen(chk, case):
     return check_single(chk, case) if case["pipeline"] == "single" else check_topdown(chk, case)
 
@@ -332,6 +406,212 @@ def run_cases(chk, cases, chunk=30):
             active = nxt
 
 
+# ------------------------------------------------------------------ bottom-up
+def bu_forward(sc, idxs, fidxs, vidxs):
+    """The REAL BottomUpInferenceModel.forward (find_local_peaks, _generate_cms_peaks, PAFScorer.predict,
+    decode) on the sub-batch `idxs` of scene `sc`, around harness/c03.py's ideal-network stub; the
+    batch dictionary carries frame/video indices exactly as `_predict_generator` builds it."""
+    import torch
+    import c03
+    import sleap_nn.inference.bottomup as bu
+    import sleap_nn.inference.paf_grouping as pg
+    from sleap_nn.data.confidence_maps import generate_multiconfmaps
+    from sleap_nn.data.edge_maps import generate_pafs
+    from sleap_nn.inference.predictors import BottomUpPredictor
+    sub = dict(sc)
+    sub["frames"] = [sc["frames"][i] for i in idxs]
+    sub["effs"] = [sc["effs"][i] for i in idxs]
+    names = [f"n{i}" for i in range(sc["n_nodes"])]
+    scorer = pg.PAFScorer(part_names=names, edges=[(f"n{u}", f"n{v}") for u, v in sc["edges"]],
+                          pafs_stride=sc["ps"], max_edge_length_ratio=sc["ratio"],
+                          dist_penalty_weight=sc["weight"], n_points=sc["n_points"],
+                          min_instance_peaks=sc["min_peaks"], min_line_scores=sc["min_line"])
+    model = bu.BottomUpInferenceModel(
+        torch_model=c03.make_stub(torch, sub, generate_multiconfmaps, generate_pafs), paf_scorer=scorer,
+        cms_output_stride=sc["cs"], pafs_output_stride=sc["ps"], peak_threshold=sc["threshold"],
+        refinement=sc["refinement"], integral_patch_size=sc["patch"], return_confmaps=False,
+        return_pafs=False, return_paf_graph=True, input_scale=sc["scale"])
+    B = len(idxs)
+    flat = {}
+    o_flp = bu.find_local_peaks
+
+    def w_flp(*a, **k):
+        r = o_flp(*a, **k)
+        flat["peaks"] = tuple(t.clone() for t in r)
+        return r
+    bu.find_local_peaks = w_flp
+    try:
+        inputs = {"image": torch.zeros(B, 1, sc["Hin"], sc["Win"]),
+                  "frame_idx": torch.tensor([fidxs[i] for i in idxs], dtype=torch.int32),
+                  "video_idx": torch.tensor([vidxs[i] for i in idxs], dtype=torch.int32),
+                  "eff_scale": torch.tensor(sub["effs"], dtype=torch.float32)}
+        outs = model(inputs)
+    finally:
+        bu.find_local_peaks = o_flp
+    assert len(outs) == 1
+    out = BottomUpPredictor()._convert_tensors_to_numpy(outs[0])   # the real tensor → numpy step
+    recs = []
+    for b in range(B):
+        insts = []
+        for pts, pv, sc_ in zip(out["pred_instance_peaks"][b], out["pred_peak_values"][b], out["instance_scores"][b]):
+            insts.append({"pts": [None if (np.isnan(q).all()) else [float(q[0]), float(q[1])] for q in pts],
+                          "score": float(sc_)})
+        recs.append({"frame": idxs[b], "fidx": int(out["frame_idx"][b]), "vidx": int(out["video_idx"][b]),
+                     "insts": insts, "peaks": np.asarray(out["peaks"][b], dtype=np.float64),
+                     "peak_vals": np.asarray(out["peak_vals"][b], dtype=np.float64)})
+    return recs, out, flat["peaks"], sub
+
+
+def bu_same(a, b, tol=1e-5):
+    if len(a["insts"]) != len(b["insts"]):
+        return False
+    for x, y in zip(a["insts"], b["insts"]):
+        if abs(x["score"] - y["score"]) > tol or not pts_close(x["pts"], y["pts"], tol):
+            return False
+    return True
+
+
+def bottomup_cases(chk, n, given=None):
+    """Bottom-up: batch ≡ frames alone ≡ permuted ≡ chunked; indices carried; sample b's instances are
+    frame b's animals; the consumer's max_instances filter keeps the highest-scoring instances."""
+    import c03
+    import sleap_io as sio
+    from sleap_nn.inference.predictors import BottomUpPredictor
+    rng = chk.rng
+    orig_from_numpy = sio.PredictedInstance.from_numpy
+
+    def shim(*a, **k):   # sleap-io 0.9.2 renamed the keyword arguments the repo still uses
+        if "points" in k:
+            k["points_data"] = k.pop("points")
+        if "instance_score" in k:
+            k["score"] = k.pop("instance_score")
+        return orig_from_numpy(*a, **k)
+    lines, ctxs = [], []
+    for ci in range(n):
+        if given is not None:
+            sc = c03.unfrac_json(given[ci]["scene"])
+        else:
+            for _ in range(40):
+                sc = c03.gen_scene(rng)
+                if len(sc["frames"]) >= 2 and all(sc["frames"]):
+                    break
+            if ci % 3 == 0:   # an empty frame, first / in the middle / last
+                sc["frames"][rng.randrange(len(sc["frames"]))] = []
+        nF = len(sc["frames"])
+        fidxs = rng.sample(range(50), nF) if given is None else given[ci]["fidxs"]
+        vidxs = [rng.randrange(3) for _ in range(nF)] if given is None else given[ci]["vidxs"]
+        small = {"scene": c03.frac_json(sc), "fidxs": fidxs, "vidxs": vidxs}
+        try:
+            full, out_full, flat, _ = bu_forward(sc, list(range(nF)), fidxs, vidxs)
+            alone = [bu_forward(sc, [i], fidxs, vidxs)[0][0] for i in range(nF)]
+            perm = list(range(nF))
+            while nF > 1 and perm == list(range(nF)):
+                rng.shuffle(perm)
+            permd = bu_forward(sc, perm, fidxs, vidxs)[0]
+            Bc = rng.randrange(1, nF + 1)
+            chunked = []
+            for c0 in range(0, nF, Bc):
+                chunked += bu_forward(sc, list(range(c0, min(nF, c0 + Bc))), fidxs, vidxs)[0]
+        except Exception as e:
+            chk.disagree("bottom-up forward raised where the model does not", small, f"raise:{type(e).__name__}: {str(e)[:200]}", "ok")
+            chk.fail(f"C12: BottomUpInferenceModel raised {type(e).__name__} on a well-formed batch: {str(e)[:200]}", small, None)
+            continue
+        n_an = [len(f) for f in sc["frames"]]
+        chk.case(("bottomup", json.dumps(small, sort_keys=True, default=str)),
+                 {"case": "bottomup", "animals_per_frame": n_an, "fidxs": fidxs, "vidxs": vidxs, "perm": perm, "chunk": Bc,
+                  "instances_per_frame": [len(r["insts"]) for r in full]},
+                 tags=["bottomup", f"refine={sc['refinement']}", "has_empty_frame" if 0 in n_an else "no_empty_frame"])
+        why = []
+        for b in range(nF):
+            if (full[b]["fidx"], full[b]["vidx"]) != (fidxs[b], vidxs[b]):
+                why.append(f"sample {b} carries indices {(full[b]['fidx'], full[b]['vidx'])}, its frame has {(fidxs[b], vidxs[b])}")
+            if not bu_same(full[b], alone[b]):
+                why.append(f"frame {b}: instances in the batch differ from the frame alone")
+            if not bu_same(full[b], chunked[b]) or (chunked[b]["fidx"], chunked[b]["vidx"]) != (fidxs[b], vidxs[b]):
+                why.append(f"frame {b}: instances / indices change with batch size {Bc}")
+            pb = permd[perm.index(b)]
+            if not bu_same(full[b], pb) or (pb["fidx"], pb["vidx"]) != (fidxs[b], vidxs[b]):
+                why.append(f"frame {b}: instances / indices change when the batch is permuted")
+            # sample b's instances are frame b's animals (labels-level oracle of C03, reused)
+            pred = [[None if p is None else (p[0], p[1]) for p in inst["pts"]] for inst in full[b]["insts"]
+                    if any(p is not None for p in inst["pts"])]
+            w = c03.oracle(sc, b, pred)
+            if w:
+                why.append(f"frame {b}: {w}")
+        # ---- plumbing vs model: the per-sample split of the flat peak list
+        g, vals, sinds, chans = flat
+        fl = [str(nF)]
+        for b in range(nF):
+            ids = (sinds == b).nonzero(as_tuple=True)[0].tolist()
+            fl.append(f"{fidxs[b]} {vidxs[b]} {rat(float(np.float32(sc['effs'][b])))} {len(ids)} "
+                      + " ".join(f"{i} {rat(float(vals[i]))}" for i in ids))
+        lines.append("bu " + " ".join(fl))
+        ctxs.append(("bu", small, full, flat, sc))
+        # ---- consumer: indices per labeled frame and the max_instances filter (real code, shimmed kwargs)
+        maxn = max(len([i for i in r["insts"] if any(q is not None for q in i["pts"])]) for r in full)
+        k = rng.randrange(1, maxn) if (maxn >= 2 and rng.random() < 0.85) else rng.choice([None, 1, 3])
+        chk.tag("bottomup_topk_active" if (k is not None and k < maxn) else "bottomup_topk_inactive")
+        skel = sio.Skeleton(nodes=[f"n{i}" for i in range(sc["n_nodes"])],
+                            edges=[(f"n{u}", f"n{v}") for u, v in sc["edges"]])
+        vids = [stubs.make_video([stubs.FrameSpec(code=40, H=8, W=8)], name=f"bu{v}.mp4") for v in range(3)]
+        sio.PredictedInstance.from_numpy = shim
+        try:
+            p = BottomUpPredictor(max_instances=k, skeletons=[skel])
+            p.videos = vids
+            labels = p._make_labeled_frames_from_generator(iter([out_full]))
+            lfs = [(vids.index(lf.video), int(lf.frame_idx), [float(i.score) for i in lf.instances],
+                    [i.numpy() for i in lf.instances]) for lf in labels.labeled_frames]
+        except Exception as e:
+            chk.disagree("bottom-up consumer raised", small, f"raise:{type(e).__name__}: {str(e)[:200]}", "ok")
+            chk.fail(f"C12: BottomUpPredictor._make_labeled_frames_from_generator raised {type(e).__name__}", small, None)
+            continue
+        finally:
+            sio.PredictedInstance.from_numpy = orig_from_numpy
+        if len(lfs) != nF:
+            why.append(f"{len(lfs)} labeled frames for {nF} frames")
+        for b, lf in enumerate(lfs[:nF]):
+            if (lf[1], lf[0]) != (fidxs[b], vidxs[b]):
+                why.append(f"labeled frame {b} has (frame {lf[1]}, video {lf[0]}), its image has {(fidxs[b], vidxs[b])}")
+            live = [i for i in full[b]["insts"] if any(q is not None for q in i["pts"])]
+            scores = sorted((i["score"] for i in live), reverse=True)
+            want = scores if k is None else scores[:k]
+            tie = k is not None and len(scores) > k and abs(scores[k - 1] - scores[k]) < VAL_TIE
+            if tie:
+                chk.knife_edges += 1
+                continue
+            got = lf[2] if k is None else lf[2]
+            if len(got) != len(want) or any(abs(a - b_) > 1e-6 for a, b_ in zip(sorted(got, reverse=True), want)):
+                why.append(f"frame {b}: max_instances={k} kept scores {got}, highest are {want}")
+            lines.append(f"keeptop {'-' if k is None else k} {len(live)} " + " ".join(f"{j} {rat(i['score'])}" for j, i in enumerate(live)))
+            ctxs.append(("keeptop", small, live, lf, k))
+        if why:
+            chk.fail("C12 fails on bottom-up: " + "; ".join(why[:3]), small, {"instances": [len(r["insts"]) for r in full]})
+    out = run_driver("C12.lean", lines) if lines else []
+    for line, o, ctx in zip(lines, out, ctxs):
+        t = o.split()
+        if ctx[0] == "bu":
+            _, small, full, flat, sc = ctx
+            g = flat[0]
+            pos, nf = 2, int(t[1])
+            for b in range(nf):
+                fi, vi, e, cnt = int(t[pos]), int(t[pos + 1]), t[pos + 2], int(t[pos + 3])
+                ids = [int(x) for x in t[pos + 4:pos + 4 + cnt]]
+                pos += 4 + cnt
+                want = np.array([[float(g[i][0]) * sc["cs"], float(g[i][1]) * sc["cs"]] for i in ids]).reshape(-1, 2)
+                got = full[b]["peaks"].reshape(-1, 2)
+                if (fi, vi) != (full[b]["fidx"], full[b]["vidx"]) or got.shape != want.shape or \
+                        (len(ids) and np.abs(got - want).max() > 1e-4):
+                    chk.disagree("_generate_cms_peaks split + indices == Decode.bottomupRecords", small,
+                                 {"b": b, "idx": [full[b]["fidx"], full[b]["vidx"]], "n": int(got.shape[0])}, o[:300])
+                    break
+        else:
+            _, small, live, lf, k = ctx
+            ids = [int(x) for x in t[1:]]
+            want = [live[j]["score"] for j in ids]
+            if len(want) != len(lf[2]) or any(abs(a - b_) > 1e-6 for a, b_ in zip(want, lf[2])):
+                chk.disagree("bottom-up max_instances filter == Decode.keepTop (order included)", small, lf[2], want)
+
+
 def main(chk: Check):
     chk.build_and_audit()
     import_repo()
@@ -346,7 +626,10 @@ def main(chk: Check):
         cases.append(gen_topdown(rng, i))
     for i in range(chk.n(20, 300)):
         cases.append(gen_single(rng, i))
+    for i in range(chk.n(4, 40)):
+        cases += [bias_empty_first(rng, i), bias_topk_after_detections(rng, i), bias_nan_batchmate(rng, i)]
     run_cases(chk, cases)
+    bottomup_cases(chk, chk.n(10, 120))
     # model-only sanity of the chunking (cheap, exact): sizes of chunks B n
     lines = [f"chunks {b} {n}" for b in range(1, 6) for n in range(0, 12)]
     for line, out in zip(lines, run_driver("C12.lean", lines)):
@@ -361,7 +644,10 @@ def replay(chk: Check, payload):
     import_repo()
     case = payload.get("case") or payload["disagreements"][0]["case"]
     print("replay case:", json.dumps(case)[:400])
-    run_cases(chk, [case])
+    if "scene" in case:
+        bottomup_cases(chk, 1, given=[case])
+    else:
+        run_cases(chk, [case])
 
 
 if __name__ == "__main__":
@@ -382,7 +668,7 @@ if __name__ == "__main__":
              "animals per frame mixed incl. empty frames, shuffled reader order with arbitrary frame indices, batch size 1..5, "
              "max_instances in {None,1,2}, refinement {none, integral}; each case = batch run + per-frame run (B=1) + permuted "
              "run (+ VideoReader B vs 1 for single-instance); distinct = distinct full case",
-        assumptions=["bottom-up (its max_instances = sort by score, take k) is C03's pipeline and is not exercised here",
+        assumptions=["bottom-up is exercised at the inference-model + consumer level (harness/c03.py's stub), not through _predict_generator",
                      "max_instances = 0 is outside the model (the code raises in crop_bboxes)",
                      "animals of one frame are ≥ 7 centroid-grid cells apart (one local peak each)"],
     )
